@@ -113,6 +113,26 @@ def gen_c06(rnd, mode, tier):
         # at most one sending callback per token (order inside a group is unspecified)
         if not any(r.get("tok") == tk for rules in beh.values() for r in rules):
             beh.setdefault(full, []).insert(0, rule)
+    if rnd.random() < 0.25:
+        # a callback attaches one more (blank) listener to the machine while its event is in progress
+        c = rnd.choice(cands)
+        if not c.startswith("machine."):
+            sig = prog["cbs"][c]["sig"]
+            if not any(p["name"] == "machine" for p in sig):
+                sig.insert(0, P("machine"))
+        tk = rnd.choice(alltoks)
+        full = f"M0/{c}"
+        have = next((r for r in beh.get(full, []) if r.get("tok") == tk), None)
+        if have is not None:
+            have["attach"] = True
+        else:
+            rule = {"tok": tk, "attach": True}
+            base = [r for r in beh.get(full, []) if "tok" not in r]
+            if base:
+                for k2 in ("pre", "post", "ret"):
+                    if k2 in base[0]:
+                        rule[k2] = base[0][k2]
+            beh.setdefault(full, []).insert(0, rule)
     cancel = is_async and rnd.random() < 0.25
     if cancel:
         # cancel@await: some sends are wrapped in wait_for with a short (virtual) timeout
@@ -542,7 +562,7 @@ class C06(Campaign):
     fault_kinds = ["preempt@line (threads, <=6 per run, 70% on lines touching the queue / the lock)",
                    "cancel@await: sender wrapped in wait_for (asyncio; only the overlap clause is judged)", "sender think-time",
                    "coroutine created early / awaited late", "callback delay 0..1h virtual (stall)",
-                   "nested send from a callback"]
+                   "nested send from a callback", "listener attached by a callback while its event is in progress"]
     rule = ("one run = a total, fault-free machine and 2-4 concurrent senders (asyncio tasks with seeded "
             "think-times and yielding coroutine callbacks, or OS threads pre-empted at seeded line boundaries), "
             "each sending 1-4 uniquely tokenised events, some callbacks sending nested events. Checked from "
@@ -587,6 +607,7 @@ class C06(Campaign):
              "probe.loser_send_processed_by_other_sender": ev["c06"]["loser_returns"],
              "probe.overlapping_send_calls": ev["c06"]["overlapping_senders"],
              "fault.nested_sends": st.get("sends", 0), "fault.virtual_delays": st.get("delays", 0),
+             "fault.listener_attached_mid_event": st.get("attach", 0),
              "fault.preemptions": st.get("switches", 0), "probe.line_steps": st.get("line_steps", 0)}
         for site, n in (ev["res"].get("info", {}).get("sites") or {}).items():
             c["probe.preempt_site." + site] = n
